@@ -17,7 +17,8 @@ LEVEL = "exploration"
 RULE = ("calls of the public functions diff, patch, decide_merge (generic JSON pairs/triples) and diff_notebooks, patch_notebook, "
         "decide_notebook_merge, merge_notebooks, apply_decisions, pretty_print_notebook, pretty_print_notebook_diff, "
         "pretty_print_merge_decisions (generated notebook pairs/triples x sampled strategy; diffs and decisions fed back in are the ones "
-        "nbdime produced). Oracles: (snapshot) canonical JSON of every argument is identical before and after the call, also when the call "
+        "nbdime produced; one case in twelve nests the metadata or JSON data of the rich outputs 150-900 levels deep, the library running "
+        "under the interpreter's default recursion limit). Oracles: (snapshot) canonical JSON of every argument is identical before and after the call, also when the call "
         "raises; (aliasing) afterwards every list and dict reachable from the returned value is mutated in place (sentinel appended / "
         "sentinel key set) and every argument must still have its original canonical JSON. Non-trivial: inputs contain a display_data / "
         "execute_result output (the pop-and-restore path of the output differ) or the diff / decisions carry an added value (aliasing "
